@@ -257,6 +257,8 @@ def count_faults(acc, spec, out):
                 bump("file_rewritten_between_reads")
             elif k == "setopts":
                 bump("options_changed_on_live_stream")
+            elif k == "setmode":
+                bump("stream_parser_set_to_stop_at_first_error")
             elif k == "tokcli":
                 bump("token_listing_script")
             elif k == "stream":
